@@ -236,9 +236,15 @@ def range_points(lk="Uint", uk="Uint"):
         return [("l>u,v between", 20, 10, 15), ("l>u,v=l", 20, 10, 20), ("l>u,v=u", 20, 10, 10)]
     if (lk, uk) == ("Int", "Uint"):
         return [("v<l", 10, 20, 5), ("v=l", 10, 20, 10), ("l<v<u", 10, 20, 15), ("v=u", 10, 20, 20), ("v>u", 10, 20, 25)]
-    return [("v<l", 10, 20, 5), ("v=l", 10, 20, 10), ("l<v<u", 10, 20, 15), ("v=u", 10, 20, 20), ("v>u", 10, 20, 25),
-            ("l=u,v<l", 10, 10, 5), ("l=u=v", 10, 10, 10), ("l=u,v>u", 10, 10, 15),
-            ("l>u,v between", 20, 10, 15)]
+    pts = [("v<l", 10, 20, 5), ("v=l", 10, 20, 10), ("l<v<u", 10, 20, 15), ("v=u", 10, 20, 20), ("v>u", 10, 20, 25),
+           ("l=u,v<l", 10, 10, 5), ("l=u=v", 10, 10, 10), ("l=u,v>u", 10, 10, 15),
+           ("l>u,v between", 20, 10, 15)]
+    if (lk, uk) == ("Uint", "Uint"):
+        # bounds in the upper half of the u64 range (a narrowing of the bound to a signed type wraps them negative)
+        B = 2**63
+        pts += [("v=l@2^63", B, B + 10, B), ("l<v<u@2^63", B, B + 10, B + 5), ("v<l@2^63 (v = l - 2^64)", B, B + 10, B - 2**64),
+                ("v=0,u=2^64-1", 0, 2**64 - 1, 0), ("v=u=2^64-1", 0, 2**64 - 1, 2**64 - 1)]
+    return pts
 
 
 def oracle_range(label, l, u, v, incl):
@@ -258,8 +264,8 @@ def range_table(facts, which, cfgname="default"):
         for incl in (True, False):
             for (label, l, u, v) in range_points(lk, uk):
                 for doc in ("number", "text.size"):
-                    if doc == "text.size" and (lk, uk) != ("Uint", "Uint"):
-                        continue
+                    if doc == "text.size" and ((lk, uk) != ("Uint", "Uint") or "2^6" in label):
+                        continue        # a text length is a small non-negative number
                     fl = lk == "Float"
                     vv = float(v) if fl else v
                     if which == "json":
